@@ -83,8 +83,13 @@ class SamplerMonitor:
         offered = list(combinations)
         cap = args.combination_number_upper_bound
         before = dict(self.counter())
+        args_before = dict(vars(args)) if hasattr(args, '__dict__') else None
         out = self.real(combinations, args)
         after = dict(self.counter())
+        if isinstance(combinations, list):
+            sh.check('returned-are-candidates', combinations == offered, 'sampler-modified-the-candidate-list-it-was-given', lambda: {'before': offered[:20], 'after': list(combinations)[:20]})
+        if args_before is not None:
+            sh.check('returned-are-candidates', dict(vars(args)) == args_before, 'sampler-modified-the-args-object', lambda: {'cap_before': repr(args_before.get('combination_number_upper_bound')), 'cap_after': repr(getattr(args, 'combination_number_upper_bound', None))})
         self.calls += 1
         out = list(out)
         wit = lambda **kw: dict(kw, offered=offered[:60], cap=cap, returned=out[:60], before={str(k): before.get(k, 0) for k in offered[:60]},  # noqa: E731
